@@ -78,11 +78,11 @@ CLAIMED['C06'] = dict(
    technique="Coq proof of the strict-check equivalence and table-independence + independent bond count oracle on the implementation + exact correspondence",
    design_ref="5/C06")
 CLAIMED['C09'] = dict(
-   text="Kernel-checked for ALL strings (props/C09.v, proofs/ParserTotal.v): the first stage of the encoder - SMILES tokenizer and graph construction - never crashes: it returns a graph whose arrays agree in length, or the encoder raises EncoderError, or ValueError escapes from int() on an over-long digit field (interpreter limit, known finding); no IndexError / KeyError / AttributeError / AssertionError, loops terminate (invariant over the parser's stacks, ring log and placeholder slots). Also proved: parse errors and kekulisation failures surface as EncoderError; the inputs named by the property (C11, F:F; crashed before the repairs) are rejected with EncoderError. Not proved: crash freedom of the later stages (kekulisation, matching, emission): outcome classes of implementation and model are compared on broken / random / corner-case SMILES with all flag combinations on every run. Two interpreter limits are known findings.",
+   text="Kernel-checked for ALL strings (props/C09.v, proofs/ParserTotal.v): the first stage of the encoder - SMILES tokenizer and graph construction - never crashes: it returns a graph whose arrays agree in length, or the encoder raises EncoderError, or ValueError escapes from int() on an over-long digit field (interpreter limit, known finding); no IndexError / KeyError / AttributeError / AssertionError, loops terminate (invariant over the parser's stacks, ring log and placeholder slots). Also proved: parse errors and kekulisation failures surface as EncoderError; the inputs named by the property (C11, F:F; crashed before the repairs) are rejected with EncoderError. Not proved: crash freedom of the later stages (kekulisation, matching, emission): outcome classes of implementation and model are compared on broken / random / corner-case SMILES with all flag combinations on every run. Two interpreter limits are known findings. Last stage (proofs/EncRows.v, EncFuel.v): every edge of row j starts at j and tree edges lead to atoms of larger index, through the reader and kekulize; hence after the reader and kekulize have returned, the strict check, the inversion pass and the emitting walk never end in the model-only outcome OutOfFuel (C09_emission_never_out_of_fuel_partial).",
    technique="Coq proof by invariant (parser stage total) + outcome-class correspondence on malformed SMILES + known-finding classifiers",
    design_ref="5/C09")
 CLAIMED['C10'] = dict(
-   text="Kernel-checked for ALL SMILES, ALL accepted tables, both values of strict and attribute (props/C10.v: C10_encoder_output_decodes_partial and its _checkable_ form; proofs/EncShape.v, EncTokens.v, EncAtoms.v, EncGood.v, EncDecodes.v): whatever string the encoder model returns tokenises back into the symbols it emitted, each is a symbol the derivation accepts (the atom symbol is read back as the very atom it was printed from), and decoder() returns - under three hypotheses that the harness evaluates on every input through the extracted enc_hyp: ring/branch suffixes 1..3 (= spans and lengths below 16^3, C10_suffix_partial), no atom with more explicit H than its capacity (guaranteed by strict=True in the implementation, but 'bond counts never negative' is not proved in the model: hence partial), input shorter than 10^4300 characters. Standardised: symbol <-> atom is a bijection on the atoms the encoder prints (C10_symbol_determines_atom, C10_printed_symbol_reads_back) and the named spelling pairs ([E+]/[E+1], [E++]/[E+2], [EH]/[EH1], [E]/[EH0], ...) are read as the same atom for EVERY element, with and without isotope (C10_standard_spellings). Ring/branch suffix 1..3 iff span-1 / length-1 < 16^3; Q symbols decode back. NOT proved: stability under re-encoding - decided per input: re-encoding the decoded SMILES must reproduce the string; every emitted symbol is also judged by the extracted symbol_in_grammar; atom-field extremes (every element, charges to +-100, H0-H9 and two-digit H under big tables, isotopes with leading zeros) and spans at the 16^k boundaries.",
+   text="Kernel-checked for ALL SMILES, ALL accepted tables, both values of strict and attribute (props/C10.v: C10_encoder_output_decodes_partial and its _checkable_ form; proofs/EncShape.v, EncTokens.v, EncAtoms.v, EncGood.v, EncDecodes.v): whatever string the encoder model returns tokenises back into the symbols it emitted, each is a symbol the derivation accepts (the atom symbol is read back as the very atom it was printed from), and decoder() returns - under three hypotheses that the harness evaluates on every input through the extracted enc_hyp: ring/branch suffixes 1..3 (= spans and lengths below 16^3, C10_suffix_partial), no atom with more explicit H than its capacity (guaranteed by strict=True in the implementation, but 'bond counts never negative' is not proved in the model: hence partial), input shorter than 10^4300 characters; C10_encoder_output_decodes_sized_partial needs sizes only (input <= 16^3 characters, output <= 16^3 symbols) besides the H/capacity hypothesis. Standardised: symbol <-> atom is a bijection on the atoms the encoder prints (C10_symbol_determines_atom, C10_printed_symbol_reads_back) and the named spelling pairs ([E+]/[E+1], [E++]/[E+2], [EH]/[EH1], [E]/[EH0], ...) are read as the same atom for EVERY element, with and without isotope (C10_standard_spellings). Ring/branch suffix 1..3 iff span-1 / length-1 < 16^3; Q symbols decode back. NOT proved: stability under re-encoding - decided per input: re-encoding the decoded SMILES must reproduce the string; every emitted symbol is also judged by the extracted symbol_in_grammar; atom-field extremes (every element, charges to +-100, H0-H9 and two-digit H under big tables, isotopes with leading zeros) and spans at the 16^k boundaries.",
    technique="Coq proof (invariants of the SMILES reader, kekulize and the encoder walk; printer/grammar round trip of atom symbols; finite sweeps of index/branch/ring symbols against the generated tables) + extracted hypothesis evaluation per input + metamorphic oracles on the implementation + exact correspondence",
    design_ref="5/C10")
 CLAIMED['C17'] = dict(
